@@ -131,6 +131,10 @@ def gen_case(rng, idx, quick):
         c["kf"] = max(2, ki + rng.range(-bg - 1, bg + 1))
         if op != "cmux":
             c["ko"] = c["ki"]
+        if dsize >= 3 and op != "cmux_assign_neg" and rng.chance(1, 2):
+            # known finding: res_dft is not zeroed by the CMux forms; leave exactly representable stale limbs in
+            # the scratch slot it will occupy (small = invisible under the noise, 40+ bits = wrong decryption)
+            c["stale"] = rng.choice([6, 12, 20, 40, 44])
     if op in ("ggsw", "ggsw_assign"):
         size_a = ceil_div(ki, bi)
         if size_a < 2:
@@ -178,6 +182,8 @@ def model_line(c, a, big):
     size_g = ceil_div(c["kg"], c["bg"])
     op = c["op"]
     base = f"ep big={big} n={n} gp={c['bg']},{c['rank']},{c['dsize']},{c['dnum']},{size_g} g={a['g']}"
+    if "r0" in a:
+        base += f" r0={a['r0']}"
     if op == "glwe":
         return base + f" op=glwe bo={c['bo']} so={ceil_div(c['ko'], c['bo'])} bi={c['bi']} a={a['a']}"
     if op == "glwe_assign":
@@ -370,6 +376,7 @@ def run(ctx):
         for i, (k, big) in enumerate(index):
             model[(k, big)] = mout[i].split(" ", 1)[1] if i < len(mout) and " " in mout[i] else "missing"
         n_oracle = 0
+        n_stale_fail = 0
         n_loose = 0
         max_ratio = 0.0
         for k, (c, ans) in enumerate(zip(cases, answers)):
@@ -408,7 +415,13 @@ def run(ctx):
                     if det.get("loose"):
                         n_loose += 1
                     max_ratio = max(max_ratio, det.get("ratio", 0.0))
-                    if not okc:
+                    if not okc and "stale" in c:
+                        n_stale_fail += 1
+                        if stale_witness is None:
+                            stale_witness = {"request": req_line(c), "back_end": BE_NAMES[i], "oracle": det,
+                                             "model_equals_implementation": outs[i] == model[(k, BIG128[i])],
+                                             "rerun": f"printf '1 {req_line(c)}\\n' | harness/target/release/pvh ep"}
+                    elif not okc:
                         ctx.oracle_failures += 1
                         witness = {"request": req_line(c), "back_end": BE_NAMES[i], "oracle": det,
                                    "rerun": f"printf '1 {req_line(c)}\\n' | harness/target/release/pvh ep"}
@@ -421,18 +434,24 @@ def run(ctx):
         ctx.cov["oracle_bound_too_loose_to_decide"] = n_loose
         ctx.cov["max_observed_noise_over_bound"] = round(max_ratio, 4)
         ctx.cov["histogram"] = hist
+        ctx.cov["stale_res_dft_cases"] = sum(1 for c in cases if "stale" in c)
+        ctx.cov["stale_res_dft_oracle_failures"] = n_stale_fail
 
         # ---- gate 4: scratch contents must not matter
-        sub = [c for c in cases if True][: (40 if quick else 300)]
+        sub = [c for c in cases if "stale" not in c][: (40 if quick else 300)]
         dirty_ans = run_batch(ctx, binp, drv, sub, dirty=0x412E848000000000)
         n_stale = 0
-        for c, a0, a1 in zip(sub, answers, dirty_ans):
+        clean = {id(c): a for c, a in zip(cases, answers)}
+        for c, a1 in zip(sub, dirty_ans):
+            a0 = clean[id(c)]
             p0, p1 = parse_answer(a0), parse_answer(a1)
             if p0 is None or p1 is None:
                 continue
             for i in range(4):
                 if p0.get(f"be{i}") != p1.get(f"be{i}"):
                     n_stale += 1
+                    if not (c["op"].startswith("cmux") and c["dsize"] >= 3):
+                        broken.append(f"output depends on scratch content: {req_line(c)}")
                     if stale_witness is None:
                         stale_witness = {"request": req_line(c), "back_end": BE_NAMES[i], "clean_scratch": p0.get(f"be{i}")[:300],
                                          "dirty_scratch": p1.get(f"be{i}")[:300],
@@ -443,7 +462,7 @@ def run(ctx):
 
     if stale_witness is not None:
         ctx.violation("CMux output depends on the prior content of the scratch arena (res_dft not zeroed, dsize >= 3)",
-                      {"witness": stale_witness}, True, key="bdd_arithmetic/eval.rs:Cmux res_dft stale limbs dsize>=3")
+                      {"witness": stale_witness}, True, key="bdd_arithmetic/eval.rs:Cmux:res_dft-not-zeroed:dsize>=3")
     if broken:
         ctx.log("broken:", *broken[:6])
         if witness:
